@@ -11,7 +11,7 @@
    any size, field order and nesting depth. *)
 From Coq Require Import List NArith.
 From Muscle Require Import Msg.MsgDefs Msg.MsgModel Msg.MsgApi Msg.MsgBytesProofs Msg.MsgSizeProofs
-  Msg.MsgRoundTrip Msg.MsgReprProofs Msg.MsgApiProofs Msg.MsgEqProofs Msg.MsgExamples.
+  Msg.MsgRoundTrip Msg.MsgReprProofs Msg.MsgApiProofs Msg.MsgEqProofs Msg.MsgFuelProofs Msg.MsgExamples.
 Local Open Scope N_scope.
 
 (* 1. the advertised flattened size is the number of bytes written *)
@@ -77,6 +77,12 @@ Theorem C01_size_tables_ok : forall ft : ftype, ft_fixed ft = true ->
   wire_size ft = cpp_size ft /\ arr_unit ft = cpp_size ft /\ 0 < cpp_size ft.
 Proof. exact size_tables_ok. Qed.
 Print Assumptions C01_size_tables_ok.
+
+(* 8b. fuel adequacy of the parser model: for EVERY byte string the model's loops terminate by consuming
+   input, i.e. running out of fuel is not an outcome of [unflatten] *)
+Theorem C01_unflatten_never_fuel : forall w : bytes, unflatten w <> Fuel.
+Proof. exact unflatten_never_fuel. Qed.
+Print Assumptions C01_unflatten_never_fuel.
 
 (* 9. the domain boundary F9: a String with an embedded NUL is outside wf and does come back truncated *)
 Theorem C01_nul_string_truncates :
